@@ -8,6 +8,9 @@ import (
 
 	"github.com/peterstace/simplefeatures/geom"
 
+	"reflect"
+
+	"verif/internal/apienum"
 	"verif/internal/codec"
 	"verif/internal/gm"
 	"verif/internal/h"
@@ -23,6 +26,7 @@ func c10Decoders(c C10Case, pool []geom.Geometry, desc func() string, cx *h.Ctx)
 		name string
 		buf  []byte
 		dec  func(b []byte) (string, error)
+		keep func(b []byte) geom.Geometry // decodes and returns the value itself (nil: not applicable)
 	}
 	wkbDec := func(b []byte) (string, error) {
 		g, err := geom.UnmarshalWKB(b, geom.NoValidate{})
@@ -44,12 +48,13 @@ func c10Decoders(c C10Case, pool []geom.Geometry, desc func() string, cx *h.Ctx)
 			break
 		}
 		m := c.Pool[i]
-		encs = append(encs, enc{fmt.Sprintf("UnmarshalWKB(little-endian pool[%d])", i), g.AsBinary(), wkbDec})
+		wkbKeep := func(b []byte) geom.Geometry { v, _ := geom.UnmarshalWKB(b, geom.NoValidate{}); return v }
+		encs = append(encs, enc{fmt.Sprintf("UnmarshalWKB(little-endian pool[%d])", i), g.AsBinary(), wkbDec, wkbKeep})
 		if !m.Zero && !containsEmptyRing(m) {
 			be := codec.EncodeWKB(m, []bool{true})
-			encs = append(encs, enc{fmt.Sprintf("UnmarshalWKB(big-endian pool[%d])", i), be, wkbDec})
-			encs = append(encs, enc{fmt.Sprintf("Geometry.Scan(big-endian pool[%d])", i), append([]byte(nil), be...), scanDec})
-			encs = append(encs, enc{fmt.Sprintf("UnmarshalWKB(mixed byte order pool[%d])", i), codec.EncodeWKB(m, []bool{true, false, true, true, false}), wkbDec})
+			encs = append(encs, enc{fmt.Sprintf("UnmarshalWKB(big-endian pool[%d])", i), be, wkbDec, wkbKeep})
+			encs = append(encs, enc{fmt.Sprintf("Geometry.Scan(big-endian pool[%d])", i), append([]byte(nil), be...), scanDec, func(b []byte) geom.Geometry { var v geom.Geometry; _ = v.Scan(b); return v }})
+			encs = append(encs, enc{fmt.Sprintf("UnmarshalWKB(mixed byte order pool[%d])", i), codec.EncodeWKB(m, []bool{true, false, true, true, false}), wkbDec, wkbKeep})
 		}
 		if tw, err := geom.MarshalTWKB(g, 0); err == nil {
 			encs = append(encs, enc{fmt.Sprintf("UnmarshalTWKB(pool[%d])", i), tw, func(b []byte) (string, error) {
@@ -58,7 +63,7 @@ func c10Decoders(c C10Case, pool []geom.Geometry, desc func() string, cx *h.Ctx)
 					return "", err
 				}
 				return g.AsText(), nil
-			}})
+			}, func(b []byte) geom.Geometry { v, _ := geom.UnmarshalTWKB(b, geom.NoValidate{}); return v }})
 		}
 		if js, err := json.Marshal(g); err == nil {
 			encs = append(encs, enc{fmt.Sprintf("UnmarshalGeoJSON(pool[%d])", i), js, func(b []byte) (string, error) {
@@ -67,7 +72,7 @@ func c10Decoders(c C10Case, pool []geom.Geometry, desc func() string, cx *h.Ctx)
 					return "", err
 				}
 				return g.AsText(), nil
-			}})
+			}, func(b []byte) geom.Geometry { v, _ := geom.UnmarshalGeoJSON(b, geom.NoValidate{}); return v }})
 		}
 	}
 	for _, e := range encs {
@@ -109,6 +114,18 @@ func c10Decoders(c C10Case, pool []geom.Geometry, desc func() string, cx *h.Ctx)
 		}
 		if !bytes.Equal(e.buf, keep) {
 			return h.Failf("pure/input-buffer-modified", "%s modified the caller's buffer during concurrent decodes%s", e.name, desc())
+		}
+		// the decoded value does not alias the buffer: clearing it afterwards changes nothing
+		if e.keep != nil {
+			scratch := append([]byte(nil), e.buf...)
+			v := e.keep(scratch)
+			before := apienum.Repr(reflect.ValueOf(v))
+			for i := range scratch {
+				scratch[i] = 0xEE
+			}
+			if after := apienum.Repr(reflect.ValueOf(v)); after != before {
+				return h.Failf("pure/result-aliases-input", "%s: the returned geometry changed when the input buffer was overwritten afterwards:\n%s\nvs\n%s%s", e.name, clip(before, 300), clip(after, 300), desc())
+			}
 		}
 		cx.Count("decoder_buffers_checked", 1)
 	}
